@@ -586,14 +586,26 @@ func attemptDCase(x *vt.Ctx, c DCase, label bool) dFinding {
 			continue
 		}
 		if s.stalled {
-			// nobody reads this channel: after Unsubscribe returned the first receive must report "closed"
-			select {
-			case m, ok := <-s.ch:
-				if ok {
-					res = dFinding{f: vt.Failf("unsubscribe:message-after-return", "subscriber #%d: received %s from its channel after Unsubscribe had returned (expected a closed channel)", i, setOf(m.Addresses))}
+			// nobody reads this channel: after Unsubscribe returned it must turn out closed. Statuses that
+			// were already handed over (a buffered channel may still hold some) are read off first: the
+			// property asks for a closed channel, not for an empty one.
+			leftovers := 0
+		drain:
+			for {
+				select {
+				case _, ok := <-s.ch:
+					if !ok {
+						break drain
+					}
+					leftovers++
+					if leftovers > 64 {
+						res = dFinding{f: vt.Failf("unsubscribe:messages-keep-coming", "subscriber #%d: %d statuses received after Unsubscribe had returned and the channel is still open", i, leftovers)}
+						break drain
+					}
+				case <-wd.C:
+					res = dFinding{timing: true, f: vt.Failf("unsubscribe:channel-not-closed:"+what, "subscriber #%d (%+v): channel still open %v after Unsubscribe was requested", i, c.Subs[i], unsubWatchdog)}
+					break drain
 				}
-			case <-wd.C:
-				res = dFinding{timing: true, f: vt.Failf("unsubscribe:channel-not-closed:"+what, "subscriber #%d (%+v): channel still open %v after Unsubscribe was requested", i, c.Subs[i], unsubWatchdog)}
 			}
 			continue
 		}
@@ -625,6 +637,9 @@ func attemptDCase(x *vt.Ctx, c DCase, label bool) dFinding {
 
 	if label {
 		x.Label("subs=%d", len(liveSubs))
+		if c.HoldStalled {
+			x.Label("a-subscriber-that-stopped-reading-stays-subscribed")
+		}
 		x.Label("registered=%d", len(want))
 		for _, i := range liveSubs {
 			x.Label("live:%s/%s", c.Subs[i].Mode, c.Subs[i].Path)
